@@ -518,10 +518,21 @@ def forge_nonce(rng, nonce, how, cfg, world, at):
     if how in ('foreign-realm', 'foreign-realm-old'):
         c2 = dict(cfg, realm=cfg['realm'] + 'x')
         return world.issue(c2, at - (100000 if how.endswith('old') else 0)) or 'abc'
+    if how in ('realm-shift', 'realm-shift-2'):
+        # a genuine nonce of ANOTHER realm of the same server key whose name is "<prefix>:<this realm>", re-spelt with
+        # the prefix moved from the realm into the nonce text ("T:<prefix>:HASH"): the colon-joined text that was
+        # hashed is the same, so only a reader that splits the nonce at its FIRST colon tells them apart
+        pre = 'lobby' if how == 'realm-shift' else rng.choice(['x', '0', ts, 'a:b'])
+        c2 = dict(cfg, realm=pre + ':' + cfg['realm'])
+        other = world.issue(c2, at)
+        if not other or ':' not in other:
+            return 'abc'
+        ts2, _, h2 = other.partition(':')
+        return '%s:%s:%s' % (ts2, pre, h2)
     raise ValueError(how)
 
 
-FORGERIES = ['ts+1', 'ts-1', 'ts-old', 'ts-pad', 'hash-flip', 'hash-trunc', 'hash-upper', 'hash-ext', 'no-colon',
+FORGERIES = ['realm-shift', 'realm-shift', 'realm-shift-2','ts+1', 'ts-1', 'ts-old', 'ts-pad', 'hash-flip', 'hash-trunc', 'hash-upper', 'hash-ext', 'no-colon',
              'garbage', 'foreign-key', 'foreign-key-old', 'foreign-realm', 'foreign-realm-old']
 
 DIGEST_KINDS = [
